@@ -13,20 +13,20 @@ import itertools
 import json
 import re
 
-from . import common, gen_mutate, gen_prog, interp, c01
+from . import common, gen_mutate, gen_prog, interp, c01, c10
 from .common import HELD, VIOLATED, INCONCLUSIVE
 
 PROP = "C11"
 
 
-def compile_src(src, want_ir=True):
-    return common.call({"op": "alpha_compile", "files": [{"path": "c11.pn", "src": src}], "ir": want_ir, "module_ir": False},
-                       build="chk", timeout=60)
+def compile_src(src, want_ir=True, before=None):
+    files = ([{"path": "units.pn", "src": before}] if before else []) + [{"path": "c11.pn", "src": src}]
+    return common.call({"op": "alpha_compile", "files": files, "ir": want_ir, "module_ir": False}, build="chk", timeout=60)
 
 
-def outcome(src, run=True):
+def outcome(src, run=True, before=None):
     """('crash', sig) | ('rejected', sorted codes) | ('ok', (stdout, status))"""
-    k, r = compile_src(src, want_ir=run)
+    k, r = compile_src(src, want_ir=run, before=before)
     if k == "crash":
         return "crash", r.signature()
     if k == "panic":
@@ -61,7 +61,9 @@ def run_perm(case):
             blocks[j] = mutated
             fault = op
     base = "\n\n".join(blocks) + "\n"
-    ref = outcome(base, run=True)
+    # every fifth program is compiled as the second module, after an unrelated module with constants of its own
+    units = c10.UNITS if i % 5 == 4 else None
+    ref = outcome(base, run=True, before=units)
     runnable = True
     if ref[0] == "ok":
         try:
@@ -83,8 +85,17 @@ def run_perm(case):
         perms.append(p)
     for p in perms:
         text = "\n\n".join(blocks[q] for q in p) + "\n"
-        got = outcome(text, run=(ref[0] == "ok" and runnable and fault is None))
+        got = outcome(text, run=(ref[0] == "ok" and runnable and fault is None), before=units)
         cov["permutations"] = cov.get("permutations", 0) + 1
+        if got[0] == "crash":
+            # a crash is neither verdict; it is keyed on its own site so that it cannot hide a change of verdict
+            return {"verdict": VIOLATED, "sig": "a permutation of the declarations crashes the compiler: %s" % got[1],
+                    "detail": {"reference": repr(ref)[:300], "order": p}, "replay": {"base": base, "permuted": text}, "cov": cov}
+        if ref[0] == "rejected" and got[0] == "rejected" and got[1] != ref[1]:
+            # the property asks for "accepted or rejected alike": which follow-up errors accompany the rejection may depend on
+            # which of two clashing declarations is met first; recorded, not judged
+            cov["rejected_with_other_codes_under_permutation"] = cov.get("rejected_with_other_codes_under_permutation", 0) + 1
+            continue
         same = got[0] == ref[0] and (got[1] == ref[1] if (ref[0] != "ok" or (runnable and fault is None)) else True)
         if not same:
             what = "verdict" if got[0] != ref[0] else ("codes" if ref[0] == "rejected" else "behaviour")
@@ -528,6 +539,11 @@ def named_length_cases(rng, n):
         holder = rng.choice([None, "[SIZE]i32", "&[SIZE]i32", "&&[SIZE]i32", "[2]&[SIZE]i32", "&[2][SIZE]i32"])
         if holder:
             decls.append("struct Holder\n{\n\trow: %s,\n}" % holder)
+        if rng.random() < 0.5:
+            # a constant and a structure may share a name (separate namespaces), in any order
+            decls.append("const Twin: i32 = 0;")
+            decls.append("struct Twin\n{\n\tx: i32,\n}")
+            decls.append("fn twin() -> i32\n{\n\tvar t = Twin { x: Twin };\n\treturn: t.x\n}")
         decls.append("fn main() -> i32\n{\n\tvar total = 0;\n\tvar i: usize = 0;\n\t{\n\t\tif i == |TABLE|\n\t\t\tgoto end;\n"
                      "\t\ttotal = total + TABLE[i];\n\t\ti = i + 1;\n\t\tloop;\n\t}\n\tend:\n\tprint!(total, \"\\n\");\n\treturn: 0\n}")
         out.append(("named", decls, sum(vals), form))
@@ -538,7 +554,16 @@ def run_named(case):
     _, decls, total, form = case
     cov = {"named_length_programs": 1, "named_form_" + form: 1}
     first = None
-    for p in itertools.permutations(range(len(decls))):
+    if len(decls) <= 5:
+        orders = list(itertools.permutations(range(len(decls))))
+    else:
+        prng = common.rng_for(total, PROP, "named_orders", len(decls))
+        orders = [list(range(len(decls))), list(reversed(range(len(decls))))]
+        for _ in range(118):
+            o = list(range(len(decls)))
+            prng.shuffle(o)
+            orders.append(o)
+    for p in orders:
         src = "\n\n".join(decls[q] for q in p) + "\n"
         got = outcome(src)
         cov["named_length_permutations"] = cov.get("named_length_permutations", 0) + 1
